@@ -20,7 +20,7 @@ struct Out {
    CaseOut* out = nullptr;
    std::string cls;                         // interface class of the root being swept
    std::string state;                       // factory/state label of the root
-   long long zero_values = 0, nonzero_values = 0, calls = 0, values = 0, refusals = 0, sequences = 0, elements = 0, out_of_range = 0, optionals_empty = 0, optionals_set = 0, objects = 0, keyed_lookups = 0;
+   long long zero_values = 0, nonzero_values = 0, calls = 0, values = 0, refusals = 0, sequences = 0, non_ascending_first_visits = 0, elements = 0, out_of_range = 0, optionals_empty = 0, optionals_set = 0, objects = 0, keyed_lookups = 0;
    std::set<const Node*>* seen = nullptr;
    std::vector<const Node*>* discovered = nullptr;
    std::map<std::string, long long> per_accessor;
@@ -67,7 +67,36 @@ template<class S> void touch_sequence(Out& o, const S& s, int depth, const std::
    ++o.sequences;
    const std::size_t n = s.size();
    if (s.empty() != (n == 0)) o.viol("sequence:empty-disagrees-with-size:" + where, where + ": empty() disagrees with size()");
-   // iteration visits exactly size() elements and agrees with positional access
+   // the first visit of a sequence is not always an ascending walk: every third sequence is first read from its last element down
+   // (positional access, then --end() repeatedly), every third one from the middle outwards; whatever order the positions are
+   // first read in, each is a valid element and the ascending walk below finds the same elements
+   std::vector<const Elem*> first_seen(std::min<std::size_t>(n, 64), nullptr);
+   static unsigned long visit_serial = 0;
+   const int order = int(visit_serial++ % 3);
+   if (n > 0 && order != 0) {
+      set_fork_note((where + (order == 1 ? " descending first visit" : " middle-outwards first visit")).c_str());
+      ++o.non_ascending_first_visits;
+      if (order == 1) {
+         auto it = s.end();
+         for (std::size_t i = n; i-- > 0; ) {
+            --it;
+            const Elem& a = *s.position(i); const Elem& b = *it;
+            if (&a != &b) o.viol("sequence:backward-iteration-disagrees-with-position:" + where, where + ": element " + std::to_string(i) + " reached by walking back from end() is not the one position() designates");
+            if (i < first_seen.size()) first_seen[i] = &a;
+            if (depth > 0 && (i < 8 || i + 3 >= n)) touch(o, a, 0, where + "[i]");
+            if (n - i > 70) break;
+         }
+      } else {
+         const std::size_t mid = n / 2;
+         for (std::size_t d = 0; d <= mid && d < 40; ++d)
+            for (std::size_t i : { mid - d, mid + d }) {
+               if (i >= n) continue;
+               const Elem& a = *s.position(i);
+               if (i < first_seen.size()) first_seen[i] = &a;
+               if (depth > 0 && d < 6) touch(o, a, 0, where + "[i]");
+            }
+      }
+   }
    std::size_t count = 0;
    set_fork_note((where + " iteration").c_str());
    for (auto it = s.begin(); it != s.end() && count <= n + 3; ++it, ++count) {
@@ -75,6 +104,7 @@ template<class S> void touch_sequence(Out& o, const S& s, int depth, const std::
       if (count < n) {
          const Elem& p = *s.position(count);
          if (&p != &e) o.viol("sequence:iteration-disagrees-with-position:" + where, where + ": element " + std::to_string(count) + " reached by iteration is not the one position() designates");
+         if (count < first_seen.size() && first_seen[count] && first_seen[count] != &e) o.viol("sequence:element-depends-on-visiting-order:" + where, where + ": element " + std::to_string(count) + " reached by an ascending walk is not the one an earlier out-of-order read of that position returned");
       }
       ++o.elements;
       if (depth > 0 && (count < 40 || count + 3 >= n)) touch(o, e, depth - 1, where + "[i]");
@@ -244,7 +274,7 @@ static void body(Ctx& C)
                discovered.clear();
             }
             out.count("accessor_calls", o.calls); out.count("calls_returning_a_value", o.values); out.count("calls_refused_with_logic_error", o.refusals);
-            out.count("sequences_checked", o.sequences); out.count("sequence_elements_visited", o.elements); out.count("out_of_range_probes", o.out_of_range);
+            out.count("sequences_checked", o.sequences); out.count("sequences_first_read_out_of_ascending_order", o.non_ascending_first_visits); out.count("sequence_elements_visited", o.elements); out.count("out_of_range_probes", o.out_of_range);
             out.count("optionals_empty", o.optionals_empty); out.count("optionals_set", o.optionals_set); out.count("keyed_lookups", o.keyed_lookups); out.count("objects_swept", o.objects);
             out.count("nodes_swept", swept); out.count("scalar_results_read", o.zero_values + o.nonzero_values);
             if (o.calls > 12 && o.refusals > 0 && o.sequences > 0) out.line("S\t" + J().s("kind", "node-sweep").s("class", cls).s("state", state).n("accessor_calls", o.calls).n("returned_a_value", o.values).n("refused_with_logic_error", o.refusals)
@@ -283,7 +313,7 @@ static void body(Ctx& C)
    VH_LEAF_CATEGORIES(VH_X)
 #undef VH_X
    if (!missing.empty()) C.inconclusive("leaf interface classes never swept: " + missing);
-   for (auto k : { "accessor_calls", "calls_returning_a_value", "calls_refused_with_logic_error", "sequences_checked", "out_of_range_probes", "optionals_empty", "optionals_set", "keyed_lookups", "cases_completed", "capture_specifications_swept" }) C.need(k);
+   for (auto k : { "accessor_calls", "calls_returning_a_value", "calls_refused_with_logic_error", "sequences_checked", "sequences_first_read_out_of_ascending_order", "out_of_range_probes", "optionals_empty", "optionals_set", "keyed_lookups", "cases_completed", "capture_specifications_swept" }) C.need(k);
 }
 
 int main(int argc, char** argv) { return guarded_main(argc, argv, body); }
